@@ -33,6 +33,9 @@ type Recorder struct {
 }
 
 func (r *Recorder) rec(id int, kind string, arg any, ctx z.Ctx) {
+	if r == nil { // a schema shared between goroutines: its callbacks are pure
+		return
+	}
 	c := CallRec{ID: id, Kind: kind, Type: fmt.Sprintf("%T", arg)}
 	if arg == nil {
 		c.Nil = true
@@ -104,8 +107,14 @@ func GoName(key string) string {
 
 var timeType = reflect.TypeOf(time.Time{})
 
+// TypeOfAlt builds a second destination type for the same schema: the same field names and types,
+// laid out in the opposite order at every struct level.
+func TypeOfAlt(n *Node) reflect.Type { return typeOf(n, true) }
+
 // TypeOf builds the destination type for a node.
-func TypeOf(n *Node) reflect.Type {
+func TypeOf(n *Node) reflect.Type { return typeOf(n, false) }
+
+func typeOf(n *Node, rev bool) reflect.Type {
 	switch n.Kind {
 	case KString, KCustom, KPre:
 		if n.Named {
@@ -127,9 +136,9 @@ func TypeOf(n *Node) reflect.Type {
 	case KTime:
 		return timeType
 	case KSlice:
-		return reflect.SliceOf(TypeOf(n.Elem))
+		return reflect.SliceOf(typeOf(n.Elem, rev))
 	case KPtr:
-		return reflect.PointerTo(TypeOf(n.Elem))
+		return reflect.PointerTo(typeOf(n.Elem, rev))
 	case KStruct:
 		var fs []reflect.StructField
 		extras := func() {
@@ -145,10 +154,15 @@ func TypeOf(n *Node) reflect.Type {
 			for _, k := range sortedKeys(f.Tags) {
 				tag = append(tag, fmt.Sprintf("%s:%q", k, f.Tags[k]))
 			}
-			fs = append(fs, reflect.StructField{Name: GoName(f.Key), Type: TypeOf(f.Node), Tag: reflect.StructTag(strings.Join(tag, " "))})
+			fs = append(fs, reflect.StructField{Name: GoName(f.Key), Type: typeOf(f.Node, rev), Tag: reflect.StructTag(strings.Join(tag, " "))})
 		}
 		if !n.ExtraFirst {
 			extras()
+		}
+		if rev {
+			for i, j := 0, len(fs)-1; i < j; i, j = i+1, j-1 {
+				fs[i], fs[j] = fs[j], fs[i]
+			}
 		}
 		return reflect.StructOf(fs)
 	}
